@@ -234,6 +234,21 @@ class Gen:
         self.finish(d)
         return self.add(d)
 
+    @staticmethod
+    def params_used(d):
+        used = set()
+
+        def walk(t):
+            if t[0] == "param":
+                used.add(t[1])
+            for x in t[1:]:
+                for y in (x if isinstance(x, list) else [x]):
+                    if isinstance(y, tuple):
+                        walk(y)
+        for f in (d["fields"] if d["kind"] == "struct" else [f for v in d["variants"] for f in v["fields"]]):
+            walk(f["ty"])
+        return all(i in used for i in range(len(d["params"])))
+
     def finish(self, d):
         """every type parameter must be used (Rust requires it); record capabilities"""
         pn = [p for p, _ in d["params"]]
@@ -439,7 +454,8 @@ class Gen:
                         f["ty"] = f["as_"]
                         f["as_"] = None
                 t["twin_of"], t["twin_kind"], t["no_ref"] = d["ident"], "as", True
-                self.add(t)
+                if self.params_used(t):     # dropping the `as` field's own type must not leave a parameter unused (rustc E0392)
+                    self.add(t)
             if d["docs"] or any(f["docs"] for f in fs):
                 t = copy.deepcopy(d)
                 t["ident"] = d["ident"] + "TwDoc"
